@@ -516,4 +516,70 @@ def drive (lines : List String) : IO UInt32 := do
   let evs := body.filterMap (fun l => (parseLine l).bind (fun r => (ofRaw r).join))
   report "RwLock" v (monitor evs)
 
+/-! ### second validator (`RwWord`, harness/rwword.c): one operation on an ARBITRARY word
+
+  The pure bit-field computations `lockNew` / `tryLegal` / `tryNew` / `unlockNew` are compared
+  with what the C code computes from any 64-bit word the harness planted in the lock
+  (reachable or not, so also the branches no reachable state takes), together with the kind
+  of continuation (return / wait / pop queue q). -/
+
+def wordCheck (evs : List RawEv) : Option String :=
+  let evs := evs.filter (fun r => !(schedulerFuncs.contains r.func) &&
+    !(["switch", "fcreate", "fdestroy", "rqpush", "rqpop", "rqsteal"].contains r.kind))
+  match evs.dropWhile (fun r => !(r.kind = "note" && r.args.head? = some "word")) with
+  | w :: rd :: rest =>
+    match w.args, rd.kind, rd.args with
+    | ["word", c, blob], "r", ["rw", v] =>
+      match blob.toNat? with
+      | none => some "bad blob"
+      | some snap =>
+        if v ≠ blob then some s!"first read of rw returned {v}, planted {blob}" else
+        let casOk (des : Nat) : Bool :=
+          match rest.head? with
+          | some r => r.kind = "cas" && (match r.args with
+              | ["rw", f, e, d, "1", _] => f = blob && e = blob && d.toNat? = some des
+              | _ => false)
+          | none => false
+        let after (k : Nat) : Option RawEv := (rest.drop k).head?
+        let isRet (r : Option RawEv) (res : String) : Bool :=
+          match r with
+          | some r => r.kind = "note" && r.args = ["ret", c, res]
+          | none => false
+        let isWait (r : Option RawEv) : Bool :=
+          match r with
+          | some r => r.kind = "w" && r.func = "fiber_manager_wait_in_mpsc_queue" && r.args.getLast? = some "5"
+          | none => false
+        let isPop (r : Option RawEv) (q : Bool) : Bool :=
+          match r with
+          | some r => r.kind = "r" && r.args.head? = some (if q then "WH" else "RH")
+          | none => false
+        let lockCase (b : Bool) : Option String :=
+          let n := lockNew b snap
+          if !casOk (encode n.1) then some s!"lock: CAS desired ≠ {encode n.1}"
+          else if n.2 then (if isWait (after 1) then none else some "lock: model waits, implementation does not")
+          else (if isRet (after 1) "1" then none else some "lock: model acquires, implementation does not return")
+        let tryCase (b : Bool) : Option String :=
+          if tryLegal b snap then
+            if !casOk (encode (tryNew b snap)) then some s!"try: CAS desired ≠ {encode (tryNew b snap)}"
+            else if isRet (after 1) "1" then none else some "try: no success return after the CAS"
+          else if isRet (after 0) "0" then none else some "try: model fails without CAS, implementation does not"
+        let unlockCase (b : Bool) : Option String :=
+          let n := unlockNew b snap
+          if !casOk (encode n.1) then some s!"unlock: CAS desired ≠ {encode n.1}"
+          else match n.2 with
+            | none => if isRet (after 1) "1" then none else some "unlock: model returns, implementation does not"
+            | some (q, _) => if isPop (after 1) q then none else some "unlock: model pops a queue, implementation does not"
+        if c = "r" then lockCase false else if c = "w" then lockCase true
+        else if c = "R" then tryCase false else if c = "W" then tryCase true
+        else if c = "u" then unlockCase false else if c = "U" then unlockCase true
+        else some "unknown op"
+    | _, _, _ => some "operation did not start with a read of rw"
+  | _ => some "no operation in the log"
+
+def driveWord (lines : List String) : IO UInt32 := do
+  let evs := lines.filterMap parseLine
+  match wordCheck evs with
+  | none => report "RwWord" (evs.length, none) none
+  | some why => report "RwWord" (0, some (0, "word operation", why)) none
+
 end LibfiberVerif.RwLock
